@@ -180,6 +180,13 @@ def check_file_calls(run, cases, per_file_budget, rng, with_extra=True):
                 calls.append((fi, 'get_trace_by_coord', a))
             if F['dim'] == 3:
                 calls.append((fi, 'read_zslice_coord', [2 * j]))
+        if F['dim'] == 3 and F['n'][2] > F['b'][2]:
+            # sample windows exactly one block long, at several offsets, over more than one group of 4 crosslines / inlines
+            ni_, nx_, nz_ = F['n']
+            bz = F['b'][2]
+            for a0 in sorted({0, 4, ((nz_ - bz) // 4) * 4, nz_ - bz}):
+                if 0 <= a0 and a0 + bz <= nz_:
+                    calls.append((fi, 'read_subvolume', [0, min(ni_, 6), 0, min(nx_, 10), a0, a0 + bz]))
         if F['dim'] == 3:
             for ax, op in (('il', 'read_inline_number'), ('xl', 'read_crossline_number')):
                 s0, d0, n0 = F[ax]['s'], F[ax]['d'], F['n'][0 if ax == 'il' else 1]
